@@ -169,6 +169,55 @@ def fastpath_jobs(tier):
     return js
 
 
+# ---- more C fast paths, any direct-colour format (harness/C02/fastpath_fmt.c): result field == NARROW (OP (WIDEN ...))
+# routine: (spec op, mode, source format | None = solid, mask format, destination format, channels present in the destination,
+#           x base of 1-bpp images, quick-tier channels)
+FPF = {
+    "fast_composite_src_x888_8888":       ("SRC", 0, "x8r8g8b8", None, "a8r8g8b8", (0, 1, 2, 3), 0, (3,)),
+    "fast_composite_in_8_8":              ("IN", 0, "a8", None, "a8", (3,), 0, (3,)),
+    "fast_composite_in_n_8_8":            ("IN", 1, None, "a8", "a8", (3,), 0, ()),
+    "fast_composite_add_n_8_8":           ("ADD", 1, None, "a8", "a8", (3,), 0, (3,)),
+    "fast_composite_over_8888_0565":      ("OVER", 0, "a8r8g8b8", None, "r5g6b5", (0, 1, 2), 0, (1,)),
+    "fast_composite_over_n_8_0565":       ("OVER", 1, None, "a8", "r5g6b5", (0, 1, 2), 0, ()),
+    "fast_composite_add_0565_0565":       ("ADD", 0, "r5g6b5", None, "r5g6b5", (0, 1, 2), 0, (0,)),
+    "fast_composite_over_x888_8_8888":    ("OVER", 1, "x8r8g8b8", "a8", "a8r8g8b8", (0, 1, 2, 3), 0, ()),
+    "fast_composite_over_n_8_0888":       ("OVER", 1, None, "a8", "r8g8b8", (0, 1, 2), 0, ()),
+    "fast_composite_add_n_8888_8888_ca":  ("ADD", 2, None, "a8r8g8b8", "a8r8g8b8", (0, 1, 2, 3), 0, ()),
+    "fast_composite_over_n_8888_8888_ca": ("OVER", 2, None, "a8r8g8b8", "a8r8g8b8", (0, 1, 2, 3), 0, ()),
+    "fast_composite_over_n_8888_0565_ca": ("OVER", 2, None, "a8r8g8b8", "r5g6b5", (0, 1, 2), 0, ()),
+    "fast_composite_add_1_1":             ("ADD", 0, "a1", None, "a1", (3,), 30, ()),
+    "fast_composite_over_n_1_8888":       ("OVER", 1, None, "a1", "a8r8g8b8", (0, 1, 2, 3), 30, ()),
+    "fast_composite_over_n_1_0565":       ("OVER", 1, None, "a1", "r5g6b5", (0, 1, 2), 30, ()),
+}
+FPF_TIMEOUT = {}
+
+
+def fastfmt_jobs(tier):
+    js = []
+    quick = tier == "quick"
+    w = 3
+    for fn, (op, mode, sfmt, mfmt, dfmt, chans, xbase, qch) in FPF.items():
+        for ch in tuple(chans) + (4,):
+            if quick and ch not in qch:
+                continue
+            d = {"VC_FN": fn, "VC_OP": SPOP[op], "VC_MODE": mode, "VC_CH": ch, "VC_W": w, "VC_DFMT": dfmt,
+                 "VC_SFMT": sfmt or "a8r8g8b8"}
+            if sfmt is None:
+                d["VC_SOLID"] = None
+            if mfmt:
+                d["VC_MFMT"] = mfmt
+            if xbase:
+                d["VC_XBASE"] = xbase
+            js.append(Job("fast.%s.ch%d" % (fn, ch), "C02/fastpath_fmt.c", defines=d, unwind=max(w + 6, 26 if dfmt == "r8g8b8" else 0, 66 if "a1" in (dfmt,) else 0),
+                          cbmc_flags=PC, kind="bounded", bound="width %d, height 1" % w, functions=[fn], extra_sources=RL,
+                          domain="%s %s, %s, %s: one row of %d pixels, x offsets of src/mask/dest symbolic (3 x 3 x 2 values%s), ghost pixel symbolic, every pixel value; %s"
+                                 % (op, sfmt or "solid", mfmt or "-", dfmt, w, ", 1-bpp rows start at bit %d..%d: the span crosses a 32-bit word" % (xbase, xbase + 2) if xbase else "",
+                                    "field of channel %d == NARROW (C01 spec (WIDEN src, WIDEN mask, WIDEN dest))" % ch if ch < 4 else "frame"),
+                          assumptions=(["%s: _pixman_image_get_solid replaced by a stub returning the symbolic colour" % fn] if sfmt is None else []),
+                          timeout=FPF_TIMEOUT.get((fn, ch), 3600 if mode else 1800), min_props=2))
+    return js
+
+
 # ---------------------------------------------------------------- fast-path table scan (evidence)
 def scan_tables():
     """every entry of sse2_fast_paths / c_fast_paths in the source text, with the status this property gives its routine"""
@@ -239,7 +288,7 @@ def selftest_job():
 
 
 def jobs(tier):
-    js = dispatch_jobs(tier) + sse2_jobs(tier) + fastpath_jobs(tier)
+    js = dispatch_jobs(tier) + sse2_jobs(tier) + fastpath_jobs(tier) + fastfmt_jobs(tier)
     js.append(table_job())
     if os.path.exists(os.path.join(VERIF, "harness", "C02", "models_selftest.c")):
         js.append(selftest_job())
